@@ -56,8 +56,14 @@ type Top struct {
 	closures   map[string]Val
 	nbound     int
 	epochHeaps map[string]Term
+	epochMerge map[int][]epochPart
 	nepoch     int
 	replay     *ReplayInfo
+}
+
+type epochPart struct {
+	pc    Term
+	epoch int
 }
 
 type deferred struct {
@@ -132,15 +138,30 @@ func (fr *Frame) heap(st *State, name, sort string) Term {
 	if h, ok := st.heaps[name]; ok {
 		return h
 	}
-	if st.epoch == 0 {
+	return fr.epochHeap(st.epoch, name, sort)
+}
+
+// epochHeap: the content of a heap that has not been touched since havoc/merge #epoch.
+func (fr *Frame) epochHeap(epoch int, name, sort string) Term {
+	if epoch == 0 {
 		return fr.top.entryHeap(name, sort)
 	}
-	k := fmt.Sprintf("%d:%s", st.epoch, name)
+	k := fmt.Sprintf("%d:%s", epoch, name)
 	if h, ok := fr.top.epochHeaps[k]; ok {
 		return h
 	}
 	fr.top.heapSorts[name] = sort
-	h := fr.ctx.Const(fmt.Sprintf("He%d:%s", st.epoch, name), sort)
+	var h Term
+	if parts, ok := fr.top.epochMerge[epoch]; ok {
+		// a merge point: the heap is whatever it was on the incoming path
+		h = fr.epochHeap(parts[len(parts)-1].epoch, name, sort)
+		for i := len(parts) - 2; i >= 0; i-- {
+			h = Ite(parts[i].pc, fr.epochHeap(parts[i].epoch, name, sort), h)
+		}
+		h = fr.ctx.Def(fmt.Sprintf("Hm%d:%s", epoch, name), h)
+	} else {
+		h = fr.ctx.Const(fmt.Sprintf("He%d:%s", epoch, name), sort)
+	}
 	fr.top.epochHeaps[k] = h
 	return h
 }
@@ -323,6 +344,11 @@ func (fr *Frame) mergeStates(sts []*State) *State {
 			fr.top.nepoch++
 			out.epoch = fr.top.nepoch
 			epochsDiffer = true
+			var parts []epochPart
+			for _, s2 := range sts {
+				parts = append(parts, epochPart{s2.pc, s2.epoch})
+			}
+			fr.top.epochMerge[out.epoch] = parts
 			break
 		}
 	}
@@ -374,11 +400,7 @@ func (fr *Frame) mergeStates(sts []*State) *State {
 			hk[k] = true
 		}
 	}
-	if epochsDiffer {
-		for k := range fr.top.heapSorts {
-			hk[k] = true
-		}
-	}
+	_ = epochsDiffer
 	for k := range hk {
 		sortOf := fr.top.heapSorts[k]
 		cur := fr.heap(sts[len(sts)-1], k, sortOf)
